@@ -175,6 +175,9 @@ def bake(pp, vidx, program, layout=None):
         raise
     except Exception as e:  # noqa
         out['exc'] = e
+        # a refused step or a bake that fails at its k-th step must leave the objects handed to the recipe unchanged too
+        if 'fp0' in dir() and e1.exact_world(world) != fp0:
+            out['pre'] = out['pre'] or f"a failing {out['phase']} ({type(e).__name__}) modified an object handed to uses()"
         return out
     out['ok'] = True
     out['results'] = dict(res)
